@@ -458,11 +458,20 @@ func classifyErr(v ssa.Value) errInfo {
 			}
 		}
 	case *ssa.Extract:
+		if c, ok := x.Tuple.(*ssa.Call); ok {
+			if f := c.Common().StaticCallee(); f != nil && alwaysFreshErrorAt(f, x.Index, 0) {
+				return errInfo{class: errFresh, from: c}
+			}
+		}
 		return errInfo{class: errPropagated, from: x.Tuple}
 	case *ssa.Call:
 		if f := x.Common().StaticCallee(); f != nil {
 			if isPkgFunc(f, "errors", "New") || isPkgFunc(f, "fmt", "Errorf") {
 				return errInfo{class: errFresh}
+			}
+			// a function (local closure or helper) that only ever returns freshly built errors
+			if alwaysFreshError(f, 0) {
+				return errInfo{class: errFresh, from: x}
 			}
 		}
 		return errInfo{class: errPropagated, from: x}
@@ -613,6 +622,18 @@ func successEdge(c *ssa.Call) (succ, fail *ssa.BasicBlock, ok bool) {
 		for _, e := range errs {
 			if flowsTo(e, x) && (b == c.Block() || c.Block().Dominates(b)) {
 				return isNil, nonNil, true
+			}
+			// `_, err = f()` on one branch, tested after the join: the test applies to this call's
+			// error on every path through the call
+			if ph, isPhi := x.(*ssa.Phi); isPhi && (ph.Block() == b || ph.Block().Dominates(b)) {
+				for i, ed := range ph.Edges {
+					if (ed == e || flowsTo(e, ed)) && i < len(ph.Block().Preds) {
+						p := ph.Block().Preds[i]
+						if p == c.Block() || c.Block().Dominates(p) {
+							return isNil, nonNil, true
+						}
+					}
+				}
 			}
 		}
 	}
@@ -841,4 +862,51 @@ func fieldName(v *types.Var) string {
 		return a
 	}
 	return v.Name()
+}
+
+// alwaysFreshError: f has source, a single error result, and every return carries a freshly built error.
+func alwaysFreshError(f *ssa.Function, depth int) bool {
+	return f.Signature.Results().Len() == 1 && alwaysFreshErrorAt(f, 0, depth)
+}
+
+// alwaysFreshErrorAt: result #idx of f is an error and every return carries a freshly built error there.
+func alwaysFreshErrorAt(f *ssa.Function, idx, depth int) bool {
+	if depth > 3 || len(f.Blocks) == 0 || idx >= f.Signature.Results().Len() || !isErrorType(f.Signature.Results().At(idx).Type()) {
+		return false
+	}
+	rets := returnsOf(f)
+	if len(rets) == 0 {
+		return false
+	}
+	for _, rt := range rets {
+		vals, complete := resultValues(rt, idx)
+		if !complete || len(vals) == 0 {
+			return false
+		}
+		for _, v := range vals {
+			v = stripChangeType(v)
+			switch x := v.(type) {
+			case *ssa.Call:
+				sc := x.Common().StaticCallee()
+				if sc == nil {
+					return false
+				}
+				if isPkgFunc(sc, "errors", "New") || isPkgFunc(sc, "fmt", "Errorf") {
+					continue
+				}
+				if !alwaysFreshError(sc, depth+1) {
+					return false
+				}
+			case *ssa.MakeInterface:
+				if _, ok := x.X.(*ssa.Alloc); !ok {
+					if _, isCall := x.X.(*ssa.Call); !isCall {
+						return false
+					}
+				}
+			default:
+				return false
+			}
+		}
+	}
+	return true
 }
